@@ -239,6 +239,10 @@ func Spec() *explore.Spec {
 		Doc: "recursive message types (through []*T, map[string]*T, *T inside []T, []T by value) reached through an outer type before / after the recursive type was used on its own, values 1-3 levels deep: Size, Marshal, Unmarshal, equality"})
 	spec.Families = append(spec.Families, &explore.Family{Name: "after-failed-decode", ShardDepth: 2, Body: afterFailedDecode,
 		Doc: "histories of length 2: a decode that fails (the encoding of a fully populated value truncated at every offset, or with one byte replaced by 0x07 / 0xff at every offset) followed by Unmarshal(Marshal(v)) of sparse values of the same type (maps of messages, of pointers to messages, of strings; repeated messages): pooled scratch state must not leak into the second decode"})
+	spec.Families = append(spec.Families, &explore.Family{Name: "large-structs", ShardDepth: 2, Body: largeStructs,
+		Doc: "message structs larger than 64 KiB: struct{A int32; Pad [n]byte; 8 more fields of every kind} for 12 pad sizes around 2^16 and 2^17 (field offsets 65532..65540, 131072, 200000) x pad zero / set at both ends x {top level, nested by value between other fields, behind a pointer, as elements of a repeated field}: Size, Marshal, Unmarshal, equality"})
+	spec.Families = append(spec.Families, &explore.Family{Name: "many-fields", ShardDepth: 2, Body: manyFields,
+		Doc: "structs of 63..300 fields (int32 / string / repeated int64): every field alone, all fields, the last three, first and last: field indexes and presence bitmaps beyond one, two and four machine words"})
 	return spec
 }
 
